@@ -14,4 +14,6 @@
 
 mod lmdb;
 
+#[cfg(grin_wallet_verif)]
+pub use self::lmdb::verif_effects;
 pub use self::lmdb::{wallet_db_exists, LMDBBackend};
